@@ -178,12 +178,26 @@ func structEdits(b *Built, f *refxz.File, r *sim.Rng) []structEdit {
 				img := clone()
 				img[bl.DataOffset+bl.CompSize+r.Intn(bl.PaddingLen)] = byte(r.Range(1, 255))
 				add("nonzero-block-padding", btag, img)
+				if bl.PaddingLen >= 2 {
+					// two non-zero bytes that cancel in a sum, an xor-free test
+					img := clone()
+					a := byte(r.Range(1, 255))
+					img[bl.DataOffset+bl.CompSize], img[bl.DataOffset+bl.CompSize+1] = a, -a
+					add("nonzero-block-padding", btag+", two bytes summing to 256", img)
+				}
 			}
 			if bl.HeaderPadding > 0 {
 				img := clone()
 				img[bl.DataOffset-4-1-r.Intn(bl.HeaderPadding)] = byte(r.Range(1, 255))
 				refxz.Reseal(img, bhSpan)
 				add("nonzero-header-padding", btag, img)
+				if bl.HeaderPadding >= 2 {
+					img := clone()
+					a := byte(r.Range(1, 255))
+					img[bl.DataOffset-4-1], img[bl.DataOffset-4-2] = a, -a
+					refxz.Reseal(img, bhSpan)
+					add("nonzero-header-padding", btag+", two bytes summing to 256", img)
+				}
 			}
 			// a size field whose variable-length integer never ends inside the
 			// header (continuation bit on every byte up to the header's CRC): with
@@ -331,6 +345,13 @@ func structEdits(b *Built, f *refxz.File, r *sim.Rng) []structEdit {
 				img[q+r.Intn(end-q)] = byte(r.Range(1, 255))
 				refxz.Reseal(img, ixSpan)
 				add("nonzero-index-padding", tag, img)
+				if end-q >= 2 {
+					img := clone()
+					a := byte(r.Range(1, 255))
+					img[q], img[q+1] = a, -a
+					refxz.Reseal(img, ixSpan)
+					add("nonzero-index-padding", tag+", two bytes summing to 256", img)
+				}
 			}
 		}
 		// backward size (relative to the true value of the re-assembled stream)
